@@ -157,7 +157,9 @@ func loadedField(v ssa.Value) *types.Var {
 // forwarder: m is a fresh one-block method that forwards its own parameters, in order, to one
 // other function and returns that call's results unchanged: the target.
 func forwarder(m *ssa.Function) *ssa.Function {
-	if m == nil || len(m.Blocks) != 1 || !isFreshFn(m) {
+	// a new named function, or a literal without free variables (the initialiser of a seam
+	// variable: `var dial = func(a string) (net.Conn, error) { return net.Dial("tcp", a) }`)
+	if m == nil || len(m.Blocks) != 1 || !(isFreshFn(m) || (m.Parent() != nil && len(m.FreeVars) == 0)) {
 		return nil
 	}
 	var call *ssa.Call
@@ -187,13 +189,19 @@ func forwarder(m *ssa.Function) *ssa.Function {
 	if m.Signature.Recv() != nil {
 		own = own[1:]
 	}
-	if len(call.Call.Args) != len(own) {
-		return nil
-	}
-	for i, a := range call.Call.Args {
-		if a != ssa.Value(own[i]) {
+	// the arguments are the function's own parameters, in order; a literal may add constants
+	k := 0
+	for _, a := range call.Call.Args {
+		if _, isConst := a.(*ssa.Const); isConst && m.Parent() != nil {
+			continue
+		}
+		if k >= len(own) || a != ssa.Value(own[k]) {
 			return nil
 		}
+		k++
+	}
+	if k != len(own) {
+		return nil
 	}
 	n := g.Signature.Results().Len()
 	if len(ret.Results) != n {
@@ -255,8 +263,13 @@ func injectedCallee(cc *ssa.CallCommon) (*ssa.Function, bool) {
 	}
 	if ld, ok := cc.Value.(*ssa.UnOp); ok && ld.Op == token.MUL {
 		if g, ok := ld.X.(*ssa.Global); ok {
-			if f := ff.glob[g]; f != nil && f.Parent() == nil {
-				return f, false
+			if f := ff.glob[g]; f != nil {
+				if fw := forwarder(f); fw != nil {
+					return fw, false
+				}
+				if f.Parent() == nil {
+					return f, false
+				}
 			}
 			return nil, false
 		}
